@@ -238,6 +238,26 @@ def column_store(cur, idx, v):
     return (("COLS", tuple(cols), 1), conflict)
 
 
+FRAME_DEP = ("frame", "rotated")
+
+
+def rot_frame(left, right, deps, tags):
+    """a product with a rotation matrix (tag 'orth'): the result lives in the rotated frame (pseudo-dependence FRAME_DEP, which
+    travels with the data dependences through every later operation) unless the effective matrix is the inverse applied to a
+    rotated value, which brings it back (FRAME-3)."""
+    lo = left is not None and "orth" in left.tags
+    ro = right is not None and "orth" in right.tags
+    if lo == ro:
+        return deps, tags
+    mat, vec = (left, right) if lo else (right, left)
+    fwd = ("transposed" not in mat.tags) if lo else ("transposed" in mat.tags)
+    if fwd:
+        return deps | {FRAME_DEP}, tags
+    if vec is not None and FRAME_DEP in vec.deps:
+        return deps - {FRAME_DEP}, tags | {"world3"}
+    return deps, tags
+
+
 def count_origin(v):
     """provenance of a count (len / shape / size): of the convex hull's output, or of input data (parameter / state array).
     Encoded as ('ret', '<count:..>') so that it travels through comparisons, boolean operators and builtins like the
@@ -362,7 +382,8 @@ def call_method(interp, base, name, node, args, kwargs, st):
         interp.emit(st, "dotcall", node, left=base, right=other, method=True)
         d = dim_collapse(dim_mul(base.dim, other.dim))
         tags = frozenset([("linmap-of", tuple(sorted(base.al)), other.tags)]) if base.al else frozenset()
-        return Val(dim=d, kind="arr", deps=deps, pdeps=pdeps, born=t, tags=tags)
+        deps2, tags = rot_frame(base, other, deps, tags)
+        return Val(dim=d, kind="arr", deps=deps2, pdeps=pdeps, born=t, tags=tags)
     if name in VIEW_METHODS:
         if name == "squeeze":
             interp.emit(st, "squeeze", node, target=base, axis=_arg(args, kwargs, 0, "axis"))
@@ -667,7 +688,10 @@ def call_ext(interp, ext, node, args, kwargs, st):
             sym = a0.sym * b.sym if (name in ("multiply", "dot") and a0 is not None and a0.sym is not None and b.sym is not None) else None
             if (a0 is not None and "batch" in a0.tags) or "batch" in b.tags:
                 tags = tags | {"batch"}
-            return fresh(d, tags=tags, sym=sym, kind="float" if sym is not None else "arr")
+            out = fresh(d, tags=tags, sym=sym, kind="float" if sym is not None else "arr")
+            if name in ("dot", "matmul"):
+                out.deps, out.tags = rot_frame(a0, b, out.deps, out.tags)
+            return out
         if name in ("divide", "true_divide"):
             b = args[1] if len(args) > 1 else Val()
             return fresh(dim_div(a0.dim, b.dim))
